@@ -1,6 +1,6 @@
 """C15 - media encryption.  Spec: MediaCipher.tla; binding C (TLC: design facts + layout term + verdict table; harness evaluates the term
 with independent primitives and compares bytes / verdicts with the real MediaCipher)."""
-import hashlib, hmac, json, os, random
+import hashlib, hmac, json, os, random, sys
 from harness import core
 
 
@@ -31,6 +31,52 @@ def reference_encrypt(layout, plaintext, ref, kind):
 
 WRAP = {"image": ("encrypt_image", "decrypt_image"), "audio": ("encrypt_audio", "decrypt_audio"),
         "video": ("encrypt_video", "decrypt_video"), "document": ("encrypt_document", "decrypt_document")}
+
+
+OPTIMISED = r"""
+import json, os, sys
+sys.path[:0] = [sys.argv[1], sys.argv[2]]
+import logging; logging.disable(logging.CRITICAL)
+from yowsup.layers.protocol_media.mediacipher import MediaCipher
+mc = MediaCipher()
+out = []
+key = bytes(bytearray(range(32)))
+infos = [MediaCipher.INFO_IMAGE, MediaCipher.INFO_AUDIO, MediaCipher.INFO_VIDEO, MediaCipher.INFO_DOCUM]
+for L in (0, 1, 15, 16, 17, 48, 1000):
+    p = bytes(bytearray((7 * i + L) % 256 for i in range(L)))
+    for ki, info in enumerate(infos):
+        c = bytes(mc.encrypt(p, key, info))
+        if bytes(mc.decrypt(c, key, info)) != p:
+            out.append(["roundtrip", L, ki])
+        cases = [("flip-body", c[:3] + bytes(bytearray([c[3] ^ 0x40])) + c[4:], key, info), ("flip-tag", c[:-1] + bytes(bytearray([c[-1] ^ 1])), key, info),
+                 ("trunc", c[:-1], key, info), ("key", c, bytes(bytearray([key[0] ^ 1])) + key[1:], info), ("kind", c, key, infos[(ki + 1) % 4])]
+        for name, cc, kk, ii in cases:
+            try:
+                mc.decrypt(cc, kk, ii)
+                out.append([name, L, ki])
+            except Exception:
+                pass
+print(json.dumps({"optimised": sys.flags.optimize, "accepted": out}))
+"""
+
+
+def optimised_interpreter(r):
+    """The same rejections hold when the interpreter runs with -O (assert statements compiled out): a child interpreter, started with
+    -O on the working tree, decrypts modified ciphertexts / tags, a wrong key and a wrong kind - everything must be refused."""
+    import subprocess
+    r.case(("python -O",))
+    p = subprocess.run([sys.executable, "-O", "-c", OPTIMISED, os.path.join(core.VERIF, ".deps"), core.REPO], stdout=subprocess.PIPE, stderr=subprocess.PIPE, timeout=600,
+                       env=dict(os.environ, PYTHONDONTWRITEBYTECODE="1"))
+    try:
+        res = json.loads(p.stdout.decode().strip().splitlines()[-1])
+    except Exception:
+        raise core.MachineryError("child interpreter (-O) gave no result: rc=%s %s" % (p.returncode, p.stderr.decode()[-600:]))
+    if res["optimised"] < 1:
+        raise core.MachineryError("child interpreter did not run optimised")
+    r.notes["optimised_interpreter_cases"] = 7 * 4 * 6
+    for name, L, ki in res["accepted"][:6]:
+        r.violation("optimised:%s" % name, "under python -O: %s for content length %d, kind #%d %s" % (
+            name, L, ki, "is not refused" if name != "roundtrip" else "does not return the content"), {"len": L, "kind": ki, "op": name})
 
 
 def run():
@@ -155,6 +201,7 @@ def run():
                         op, L, a, len(out), "the original" if bytes(out) == p else "different plaintext"), {"len": L, "kind": kind, "op": op, "arg": a})
         if L in (0, 16, 33):
             r.sample({"plaintext_len": L, "expected_ciphertext_len": exp_len, "kind": kind, "operations": ["encrypt==reference", "decrypt(reference)==plaintext", "%d tamper cases" % len(ops)]})
+    optimised_interpreter(r)
     r.cov["traces_validated_against_impl"] = r.cov["evaluations"]
     r.assumptions += core.ENV_ASSUMPTIONS[:1] + ["the WhatsApp layout is the one written in MediaCipher.tla (LayoutTerm); compatibility with WhatsApp servers themselves cannot be checked offline",
                       "independent primitives: cryptography HKDF-SHA256 / AES-CBC, hmac, hashlib (the code under test uses python-axolotl's HKDFv3)"]
